@@ -60,6 +60,11 @@ def cells_for(tier, seed):
     for j in range(1 if tier == "quick" else 4):
         cells.append(ens.make_cell(int(rng.integers(0, 2**31 - 1)), family=["gauss", "exp-prior", "wall", "bimodal"][j % 4], kernel=["rwm", "tpcn"][j % 2],
                                    clustering=False, d=2, N=32, vv=[0.05, 0.1, 0.03, 0.3][j % 4]))
+    # the likelihood may return auxiliary data of any dtype next to the log-likelihood: an integer / single-precision blob must not
+    # touch the precision of the log-likelihood itself
+    for j in range(1 if tier == "quick" else 3):
+        cells.append(ens.make_cell(int(rng.integers(0, 2**31 - 1)), family=["gauss", "wall", "bimodal"][j], kernel=["tpcn", "rwm"][(j + seed) % 2],
+                                   clustering=False, d=1 + (j + seed) % 2, N=32, mode=["blobs_int", "blobs_f4", "blobs_int"][j]))
     return cells
 
 
